@@ -134,3 +134,10 @@ Proof.
   rewrite rdot_map_minus1 by (unfold rmatvec; rewrite matvec_length; lia).
   ring.
 Qed.
+
+(* ModifiedHalfNormal in dimension 1 hands the gradient back as a column (one row per entry, pinned by the repo's own
+   regression test): row i of the column is the one-element list holding entry i of the gradient vector, whose entries are
+   the partial derivatives by fam_partial_derive *)
+Lemma column_nth (v : list R) (i : nat) (g : R) :
+  nth_error v i = Some g -> nth_error (map (fun g0 => g0 :: nil) v) i = Some (g :: nil).
+Proof. intros H. rewrite nth_error_map, H. reflexivity. Qed.
